@@ -20,6 +20,7 @@ import (
 	"net/http"
 	"net/http/httptest"
 	"strings"
+	"sync"
 	"sync/atomic"
 	"testing"
 	"time"
@@ -356,4 +357,156 @@ func TestVF_C30_Witness(t *testing.T) {
 	st.NonTrivial("witness-short")
 	st.Sample(map[string]any{"case": c, "result": viol})
 	st.KnownResult(c30KnownShort, viol != "", "stored object = first 16 of 32 bytes, caller supplies sha256(stored) and size 32 -> "+fmt.Sprint(c.Status)+": "+viol)
+}
+
+// ---- concurrent downloads ----------------------------------------------------------------
+//
+// Two stream downloads are in flight at the same time (a client fetching several blobs in
+// parallel, or retrying while the first attempt is still buffering), optionally carrying
+// the same client-chosen X-Request-ID. The S3 body of one of them is gated: it stops after
+// a prefix until the other request has run to completion. Both answers are judged by the
+// same rule as everywhere: 2xx => SHA-256(body) and len(body) are the ones supplied.
+
+type c30GateS3 struct {
+	c30S3
+	bodies  map[string][]byte
+	gateKey string
+	gateAt  int
+	atGate  chan struct{}
+	release chan struct{}
+	once    sync.Once
+}
+
+type c30GateReader struct {
+	s *c30GateS3
+	b []byte
+	p int
+	g bool
+}
+
+func (r *c30GateReader) Read(p []byte) (int, error) {
+	if r.g && r.p >= r.s.gateAt {
+		r.g = false
+		r.s.once.Do(func() { close(r.s.atGate) })
+		<-r.s.release
+	}
+	if r.p >= len(r.b) {
+		return 0, io.EOF
+	}
+	n := len(p)
+	if n > 700 {
+		n = 700
+	}
+	if n > len(r.b)-r.p {
+		n = len(r.b) - r.p
+	}
+	if r.g && r.p+n > r.s.gateAt {
+		n = r.s.gateAt - r.p
+	}
+	copy(p, r.b[r.p:r.p+n])
+	r.p += n
+	return n, nil
+}
+
+func (f *c30GateS3) GetObject(ctx context.Context, in *s3.GetObjectInput, _ ...func(*s3.Options)) (*s3.GetObjectOutput, error) {
+	k := aws.ToString(in.Key)
+	b, ok := f.bodies[k]
+	if !ok {
+		return nil, errors.New("NoSuchKey")
+	}
+	ln := int64(len(b))
+	return &s3.GetObjectOutput{Body: io.NopCloser(&c30GateReader{s: f, b: b, g: k == f.gateKey && f.gateAt < len(b)}), ContentLength: &ln}, nil
+}
+
+func c30DownloadOnce(m *lfsModule, key string, blob []byte, requestID string) *httptest.ResponseRecorder {
+	jb, _ := json.Marshal(map[string]any{"bucket": "c30-bucket", "key": key, "mode": "stream",
+		"integrity": map[string]any{"sha256": c30Sha(blob), "size": len(blob)}})
+	req := httptest.NewRequest(http.MethodPost, "/lfs/download", bytes.NewReader(jb))
+	if requestID != "" {
+		req.Header.Set("X-Request-ID", requestID)
+	}
+	rr := httptest.NewRecorder()
+	m.handleHTTPDownload(rr, req)
+	return rr
+}
+
+func c30JudgeDownload(who string, rr *httptest.ResponseRecorder, blob []byte) string {
+	if rr.Code < 200 || rr.Code >= 300 {
+		return ""
+	}
+	body := rr.Body.Bytes()
+	if got := c30Sha(body); got != c30Sha(blob) || len(body) != len(blob) {
+		return fmt.Sprintf("%s answered %d with %d bytes hashing to %s, the caller supplied size %d and sha256 %s", who, rr.Code, len(body), got, len(blob), c30Sha(blob))
+	}
+	return ""
+}
+
+func TestVF_C30_DownloadConcurrent(t *testing.T) {
+	st := vfkit.NewStats("C30", "download-concurrent")
+	defer st.Flush()
+	rapid.Check(t, func(t *rapid.T) {
+		st.Eval()
+		mk := func(label string) []byte {
+			n := rapid.OneOf(rapid.IntRange(1, 64), rapid.IntRange(500, 5000), rapid.IntRange(30000, 70000)).Draw(t, label+"Len")
+			seed := rapid.SliceOfN(rapid.Byte(), 8, 8).Draw(t, label+"Seed")
+			b := make([]byte, n)
+			for i := range b {
+				b[i] = seed[i%8] ^ byte(i*13) ^ byte(i>>7)
+			}
+			return b
+		}
+		blobA, blobB := mk("a"), mk("b")
+		sameObject := rapid.IntRange(0, 5).Draw(t, "sameObject") == 0
+		keyA, keyB := "ns/topic/lfs/2026/01/02/obj-a", "ns/topic/lfs/2026/01/02/obj-b"
+		if sameObject {
+			blobB, keyB = blobA, keyA
+		}
+		idKind := rapid.SampledFrom([]string{"same", "same", "same", "different", "absent", "same-after-sanitising"}).Draw(t, "requestIDs")
+		idA, idB := "", ""
+		switch idKind {
+		case "same":
+			idA = rapid.SampledFrom([]string{"batch-42", "7f3c2a1e-0000-4000-8000-000000000001", "x"}).Draw(t, "id")
+			idB = idA
+		case "different":
+			idA, idB = "req-a", "req-b"
+		case "same-after-sanitising":
+			idA, idB = "job/1:a", "job_1_a"
+		}
+		// B is the gated one: it stops after gateAt bytes of its S3 body until A is done
+		gateAt := rapid.IntRange(0, len(blobB)).Draw(t, "gateAt")
+		fs := &c30GateS3{bodies: map[string][]byte{keyA: blobA, keyB: blobB}, gateKey: keyB, gateAt: gateAt,
+			atGate: make(chan struct{}), release: make(chan struct{})}
+		if sameObject {
+			// only the FIRST reader of the shared key is gated
+			fs.gateKey = keyB
+		}
+		m := c30Module(fs, 1<<20, false)
+		st.Class("request-ids:" + idKind)
+
+		doneB := make(chan *httptest.ResponseRecorder, 1)
+		go func() { doneB <- c30DownloadOnce(m, keyB, blobB, idB) }()
+		var rrB *httptest.ResponseRecorder
+		select {
+		case <-fs.atGate:
+			st.Class("interleaved(B parked mid-body while A ran to completion)")
+		case rrB = <-doneB:
+			st.Class("B finished before reaching the gate")
+		}
+		// while B is parked, the gate must not catch A when both read the same key
+		fs.once.Do(func() { close(fs.atGate) })
+		rrA := c30DownloadOnce(m, keyA, blobA, idA)
+		close(fs.release)
+		if rrB == nil {
+			rrB = <-doneB
+		}
+		st.Class(fmt.Sprintf("status:%d/%d", rrA.Code, rrB.Code))
+		if v := c30JudgeDownload("download A (ran while B was in flight)", rrA, blobA); v != "" {
+			t.Fatalf("%s; request ids %q/%q", v, idA, idB)
+		}
+		if v := c30JudgeDownload("download B (parked mid-body while A ran)", rrB, blobB); v != "" {
+			t.Fatalf("%s; request ids %q/%q, B parked after %d of %d bytes, A has %d bytes", v, idA, idB, gateAt, len(blobB), len(blobA))
+		}
+		st.NonTrivial(idKind, len(blobA), len(blobB), gateAt, sameObject)
+		st.Sample(map[string]any{"request_ids": idKind, "len_a": len(blobA), "len_b": len(blobB), "b_parked_after": gateAt, "same_object": sameObject, "status_a": rrA.Code, "status_b": rrB.Code})
+	})
 }
